@@ -119,6 +119,10 @@ example : fromMessages "t" [2, 1] (Tree.msgs "t" wide []) =
     .ok (.act (startMsg "t" [2] "a" 1) (endMsg "t" [2] "a" 2 true 2) []) := by rfl
 /- the error branches exist: an unfinished action / a level that starts nothing -/
 example : ofType exMsgs.dropLast "a" = .error .missingEnd := by rfl
+/- … and it is the whole call that fails (KNOWN_FINDINGS.jsonl, C17): `exMsgs.dropLast` lacks only the end of `A0`;
+the finished actions `A1` and `B1` of the same type are not returned, while a type none of whose actions
+has an unfinished action in its sub-tree is unaffected. -/
+example : ofType exMsgs.dropLast "b" = .ok [toLogged "v" B0 [], toLogged "u" A2 [3, 3]] := by rfl
 example : fromMessages "u" [2, 1] exMsgs = .error .missingStart := by rfl
 
 /-- the concatenation of the tasks' message lists is an interleaving -/
